@@ -744,4 +744,194 @@ def effective (o : Opt) (args : List Arg) : Eff :=
     | some vs => .many vs
     | none => .unmodelled
 
+/-! ## 7. Section names, TOML section lookup, the composite parser, `Options.from_namespace` (round 3)
+
+Literal transcriptions of further pydoctor decision logic the property goes through:
+`parse_toml_section_name` (with the `csv.reader` state machine it calls), `get_toml_section`,
+`TomlConfigParser.parse` on a parsed TOML document, `CompositeConfigParser.parse` (order of the parsers,
+the by-extension rule of commit fd24ad4, fall-back), `options.parse_args` (`verbosity -= quietness`),
+`Options.from_namespace` (`--make-html` default, view-source template detection, `sourcepath` extension by
+`--add-package`), `Options.__attrs_post_init__` (sidebar depth checks). -/
+
+/-- `csv.reader([line], delimiter='.')` (default dialect: quotechar `"`, doublequote, not strict, no
+skipinitialspace) on ONE line without `\r`/`\n`: the fields of the row (`[]` for the empty line) -/
+inductive CsvState | startField | inField | inQuoted | quoteInQuoted
+  deriving DecidableEq, Repr
+
+def csvGo : CsvState → Str → Str → List Str
+  -- state, current field (reversed), rest ↦ remaining fields (current one included)
+  | _, cur, [] => [cur.reverse]
+  | .startField, cur, c :: rest =>
+    if c = '"' then csvGo .inQuoted cur rest
+    else if c = '.' then cur.reverse :: csvGo .startField [] rest
+    else csvGo .inField (c :: cur) rest
+  | .inField, cur, c :: rest =>
+    if c = '.' then cur.reverse :: csvGo .startField [] rest
+    else csvGo .inField (c :: cur) rest
+  | .inQuoted, cur, c :: rest =>
+    if c = '"' then csvGo .quoteInQuoted cur rest
+    else csvGo .inQuoted (c :: cur) rest
+  | .quoteInQuoted, cur, c :: rest =>
+    if c = '"' then csvGo .inQuoted ('"' :: cur) rest
+    else if c = '.' then cur.reverse :: csvGo .startField [] rest
+    else csvGo .inField (c :: cur) rest
+
+def csvRow (line : Str) : List Str :=
+  if line.isEmpty then [] else csvGo .startField [] line
+
+/-- `parse_toml_section_name(section_name)`: csv fields, stripped, unquoted with `triple=False`.
+`none` = not modelled (line breaks in the name) or `unquote_str` raised. -/
+def parseSectionName (name : Str) : Option (List Str) :=
+  if name.any (fun c => c = '\n' || c = '\r') then none
+  else (csvRow name).mapM fun a =>
+    match unquoteStr false (pyStrip a) with
+    | .ok s => some s
+    | _ => none
+
+/-- a parsed TOML document as far as the section lookup looks at it -/
+inductive TNode
+  | table (kvs : List (Str × TNode))
+  | str (s : Str)
+  | int (i : Int)
+  | bool (b : Bool)
+  | list (l : List TomlScalar) (allScalar : Bool)      -- an array; `allScalar = false`: nested arrays/tables inside
+  | other                                                -- float, date, …
+
+/-- Python truthiness of a TOML value (`if not itemdata`) -/
+def TNode.truthy : TNode → Bool
+  | .table kvs => !kvs.isEmpty
+  | .str s => !s.isEmpty
+  | .int i => i != 0
+  | .bool b => b
+  | .list l _ => !l.isEmpty
+  | .other => true
+
+def lookupNode (kvs : List (Str × TNode)) (k : Str) : Option TNode :=
+  (kvs.find? (fun p => p.1 == k)).map (·.2)
+
+inductive SecR
+  | found (kvs : List (Str × TNode))
+  | notFound                  -- `None`
+  | attributeError            -- `.get` on a value that is not a table (`tool = "x"`)
+  | indexError                -- `sections[0]` of an empty name
+
+/-- `get_toml_section(data, sections)` -/
+def getTomlSection : List (Str × TNode) → List Str → SecR
+  | _, [] => .indexError
+  | data, s :: rest =>
+    match lookupNode data s with
+    | none => .notFound
+    | some item =>
+      if !item.truthy then .notFound
+      else match rest with
+        | [] => (match item with
+                 | .table kvs => .found kvs
+                 | _ => .notFound)
+        | _ :: _ => (match item with
+                 | .table kvs => getTomlSection kvs rest
+                 | _ => .attributeError)
+
+/-- value of one key: `[str(i) for i in value]` / `str(value)`; `none` = `str()` of that value is not modelled -/
+def tnodeItem : TNode → Option (Option FileVal)
+  | .str s => some (some (.str s))
+  | .int i => some (some (.str (toString i).toList))
+  | .bool true => some (some (.str "True".toList))
+  | .bool false => some (some (.str "False".toList))
+  | .list l true => (l.mapM tomlStr).map fun x => some (.list x)
+  | .list _ false => none
+  | .table _ => none
+  | .other => none
+
+inductive TomlParseR
+  | ok (items : List (Str × FileVal))
+  | attributeError
+  | unmodelled
+
+/-- `TomlConfigParser.parse` after `toml.load`: the first section of `sections` (already split into paths)
+that exists and is non-empty gives the items; every key of it is kept (later duplicates cannot exist) -/
+def tomlParse (sections : List (List Str)) (doc : List (Str × TNode)) : TomlParseR :=
+  match sections with
+  | [] => .ok []
+  | path :: more =>
+    match getTomlSection doc path with
+    | .found kvs =>
+      (match kvs.mapM (fun kv => (tnodeItem kv.2).map fun v => (kv.1, v)) with
+       | none => .unmodelled
+       | some l => .ok (l.filterMap fun kv => kv.2.map fun v => (kv.1, v)))
+    | .notFound => tomlParse more doc
+    | .attributeError => .attributeError
+    | .indexError => .unmodelled
+
+/-! ### `CompositeConfigParser.parse` -/
+
+inductive ParserKind | toml | ini
+  deriving DecidableEq, Repr
+
+def endsWith (s suffix : Str) : Bool := suffix.isSuffixOf s
+
+/-- the order in which the parsers are tried for a stream called `name` (`none`: the stream has no `name`
+attribute or it is not a `str`): for `*.ini` / `*.cfg` the INI parsers first (`sorted` is stable) -/
+def compositeOrder (name : Option Str) (parsers : List ParserKind) : List ParserKind :=
+  match name with
+  | some n =>
+    if endsWith n ".ini".toList || endsWith n ".cfg".toList then
+      parsers.filter (· = .ini) ++ parsers.filter (· ≠ .ini)
+    else parsers
+  | none => parsers
+
+/-- try them in order: the first one that does not raise wins; `none` = all raised
+(`ConfigFileParserException("Error parsing config: …")`) -/
+def firstSuccess {α : Type} (outcome : ParserKind → Option α) : List ParserKind → Option α
+  | [] => none
+  | p :: more =>
+    match outcome p with
+    | some r => some r
+    | none => firstSuccess outcome more
+
+def compositeParse {α : Type} (outcome : ParserKind → Option α) (name : Option Str) (parsers : List ParserKind) :
+    Option α :=
+  firstSuccess outcome (compositeOrder name parsers)
+
+/-- `PydoctorConfigParser = CompositeConfigParser([TomlConfigParser(…), IniConfigParser(…)])` -/
+def pydoctorParsers : List ParserKind := [.toml, .ini]
+
+/-! ### `parse_args`, `Options.from_namespace`, `Options.__attrs_post_init__` -/
+
+/-- `options.verbosity -= options.quietness` -/
+def verbosity (nVerbose nQuiet : Nat) : Int := Int.ofNat nVerbose - Int.ofNat nQuiet
+
+/-- `makehtml`: `--make-html` given → True; otherwise (the sentinel default) True unless `--testing` or
+`--make-intersphinx` -/
+def makeHtml (given testing makeintersphinx : Bool) : Bool :=
+  if given then true else !testing && !makeintersphinx
+
+def startsWithStr (p s : Str) : Bool := p.isPrefixOf s
+
+def tmplL : Str := "{mod_source_href}#L{lineno}".toList
+def tmplSf : Str := "{mod_source_href}#l{lineno}".toList
+def tmplBb : Str := "{mod_source_href}#lines-{lineno}".toList
+
+/-- `_get_viewsource_template(sourcebase)` (`re.match` of `^https?://sourceforge\.net/`, `^https?://bitbucket\.org/`,
+then the catch-all) -/
+def viewsourceTemplate (base : Option Str) : Str :=
+  match base with
+  | none => tmplL
+  | some b =>
+    if b.isEmpty then tmplL
+    else if startsWithStr "http://sourceforge.net/".toList b || startsWithStr "https://sourceforge.net/".toList b then tmplSf
+    else if startsWithStr "http://bitbucket.org/".toList b || startsWithStr "https://bitbucket.org/".toList b then tmplBb
+    else tmplL
+
+/-- `htmlsourcetemplate`: an explicit `--html-viewsource-template` is kept, the sentinel default is replaced -/
+def sourceTemplate (explicit : Option Str) (base : Option Str) : Str :=
+  match explicit with
+  | some t => t
+  | none => viewsourceTemplate base
+
+/-- `argsdict['sourcepath'].extend(map(parse_path, argsdict.pop('packages')))`: positionals first -/
+def finalSourcepath {α : Type} (positional packages : List α) : List α := positional ++ packages
+
+/-- `__attrs_post_init__`: `true` = accepted, `false` = `error(...)` (exit 1) -/
+def sidebarOk (expandDepth tocDepth : Int) : Bool := !(expandDepth < 1) && !(tocDepth < 0)
+
 end Config
